@@ -211,3 +211,53 @@ func guarded(c *hx.Ctx, fn string, desc any, args [][]byte, run func() string) s
 	check()
 	return o
 }
+
+// extrasProto encodes the two-field message (f1 = ty, f2 = data) in a
+// non-canonical but equivalent way: every variant decodes to exactly (ty, data).
+func extrasProto(c *hx.Ctx, ty uint64, data []byte) ([]byte, string) {
+	r := c.Rng
+	f1 := func() []byte {
+		if ty == 0 && r.Intn(2) == 0 {
+			return nil
+		}
+		return pbVarint(1, ty)
+	}
+	f2 := func() []byte {
+		if len(data) == 0 && r.Intn(2) == 0 {
+			return nil
+		}
+		return pbBytes(2, data)
+	}
+	unknown := func() []byte {
+		switch r.Intn(5) {
+		case 0:
+			return []byte{0x18, 0x01} // field 3 varint 1
+		case 1:
+			return pbBytes(4, c.RandBytes(r.Intn(5)))
+		case 2:
+			return cat(pbTag(5, 1), c.RandBytes(8))
+		case 3:
+			return cat(pbTag(6, 5), c.RandBytes(4))
+		default:
+			return cat(pbTag(7, 3), pbVarint(8, 1), pbTag(7, 4))
+		}
+	}
+	switch r.Intn(8) {
+	case 0:
+		return cat(f1(), f2(), unknown()), "extras-trailing-unknown"
+	case 1:
+		return cat(unknown(), f1(), unknown(), f2()), "extras-leading-unknown"
+	case 2:
+		return cat(pbBytes(2, data), pbVarint(1, ty)), "extras-reordered"
+	case 3:
+		return cat(pbVarint(1, ty+1+uint64(r.Intn(3))), pbVarint(1, ty), f2()), "extras-repeated-scalar"
+	case 4:
+		return cat(f1(), pbBytes(2, c.RandBytes(1+r.Intn(33))), pbBytes(2, data)), "extras-repeated-bytes"
+	case 5:
+		return cat(pbTag(1, 0), nonMinimal(ty, 1+r.Intn(4)), pbTag(2, 2), nonMinimal(uint64(len(data)), 1+r.Intn(3)), data), "extras-nonminimal-varint"
+	case 6: // non-minimal tag varints
+		return cat(nonMinimal(1<<3, 1), uv(ty), nonMinimal(2<<3|2, 1+r.Intn(2)), uv(uint64(len(data))), data), "extras-nonminimal-tag"
+	default:
+		return cat(pbVarint(1, ty), pbBytes(2, data)), "extras-none"
+	}
+}
